@@ -163,6 +163,10 @@ class FullOps(TorchCalls):
                         dt = c.dtype
             elif name != "type":
                 dt = {"double": "Fixed:float64", "float": "Fixed:float32", "half": "Fixed:float16", "long": "Int", "int": "Int", "bool": "Bool"}[name]
+            if t.dtype == "Default" and dt == "M":
+                c = t.poly.const_value() if t.poly is not None else None
+                if c is None or c.denominator != 1:
+                    self.ev("precision_loss", node, why="a value computed in torch's default dtype is converted to the matrix dtype afterwards (float32 rounding survives in float64)")
             return t.but(dtype=dt)
         if name == "item" or name == "tolist":
             if name == "item":
